@@ -153,6 +153,11 @@ class Facts:
             if env and t["name"] in env:
                 ti, e2 = env[t["name"]]
                 return self.tokens(ti, e2, depth + 1)
+            dyn = getattr(self, "_dyn_env", None)
+            if dyn and t["name"] in dyn and env is None:
+                # a generic helper being summarised for a call site that passes a handle for this parameter
+                ti, e2 = dyn[t["name"]]
+                return self.tokens(ti, e2 or {}, depth + 1)
             return (0, False)
         if k in ("prim", "str", "never", "ref", "ptr", "fnptr", "fndef", "dyn", "alias", "other"):
             return (0, False)
